@@ -800,7 +800,8 @@ def _run_partitions(tier, seed, v):
         etas = list(m.random_variables.iiv.names)
         back = {e: i for i, e in enumerate(etas, 1)}
         base_part = frozenset(frozenset(back[e] for e in dist.names) for dist in m.random_variables.iiv)
-        rec = {"check": "td_exhaustive_block_structure", "n": n, "base_structure": structure, "outcome": None}
+        rec = {"check": "td_exhaustive_block_structure", "n": n, "base_structure": structure, "outcome": None,
+               "base_blocks": [list(dist.names) for dist in m.random_variables.iiv]}
         try:
             wf = td_exhaustive_block_structure(m)
             tasks = [t for t in wf.tasks if t.name == "candidate_entry"]
